@@ -115,6 +115,48 @@ def encodeItems (S : Schema) (t : Ty) : List Val → Option Bytes
     | some b => (encodeItems S t vs).map (b ++ ·)
 end
 
+/-! ### Typing: `v : t` under schema `S`, stated independently of the byte layout -/
+
+mutual
+/-- `hasType S t v`: ranges of the integers, lengths of `int256`/byte strings (`< 2^24`, the largest representable),
+constructor declared, fields in declaration order with a conditional field present exactly when its flag bit is set -/
+def hasType (S : Schema) : Ty → Val → Bool
+  | .nat, .num n => n < 2 ^ 32
+  | .int, .num n => n < 2 ^ 32
+  | .long, .num n => n < 2 ^ 64
+  | .int256, .raw bs => bs.length = 32
+  | .bytes, .raw bs => bs.length < 2 ^ 24
+  | .string, .raw bs => bs.length < 2 ^ 24
+  | .bool, .bool _ => true
+  | .tru, .unit => true
+  | .bare c, .tuple fs =>
+    match S.ctor? c with
+    | some d => fieldsHaveType S d.fields [] fs
+    | none => false
+  | .boxed t, .sum c fs =>
+    match S.ctorOf? t c with
+    | some d => fieldsHaveType S d.fields [] fs
+    | none => false
+  | .vector t, .vec items => items.length < 2 ^ 32 && itemsHaveType S t items
+  | _, _ => false
+
+def fieldsHaveType (S : Schema) : List Field → Env → List Val → Bool
+  | [], _, [] => true
+  | f :: fs, env, v :: vs =>
+    match present? env f.cond with
+    | none => false
+    | some false =>
+      match v with
+      | .absent => fieldsHaveType S fs env vs
+      | _ => false
+    | some true => hasType S f.ty v && fieldsHaveType S fs (pushEnv env f v) vs
+  | _, _, _ => false
+
+def itemsHaveType (S : Schema) (t : Ty) : List Val → Bool
+  | [] => true
+  | v :: vs => hasType S t v && itemsHaveType S t vs
+end
+
 /-- request bytes of function `f` applied to the parameter values `ps` -/
 def encodeRequest (S : Schema) (f : String) (ps : List Val) : Option Bytes :=
   match S.func? f with
